@@ -15,4 +15,27 @@ CLAIMS = {
     },
 }
 
+CLAIMS["C11"] = {
+    "text": "Theorem C11.collect_eq_walk: for every byte string, collecting the iterator model equals the reference type-length-value walk "
+            "(Spec.Tlv.walk); corollaries: tiling of the section by the decoded items (C11.tiling, tiling_complete_iff), at most one error "
+            "and it is last (C11.error_last), at most n/3+1 items (C11.count_bound), exhausted after an error, and fuel irrelevance "
+            "(the Rust loop has no bound). Correspondence: all strings over {0,1,2,3,255} up to length 7 (quick) / 9 (thorough), every "
+            "truncation of well-formed sections, boundary lengths 0/1/255/256/65535, sections of accepted headers; a Python reference walk "
+            "is evaluated on the implementation's outputs.",
+    "note": BASE_NOTE, "ref": "DESIGN.md 7 (C11)",
+}
+CLAIMS["C14"] = {
+    "text": "Theorems C14.views_partition / lengths / family / addresses_decode: for every accepted header (any input), address bytes ++ TLV bytes "
+            "= payload, sizes and length field agree, family = wire nibble = family of the decoded value, and the decoded value is the big-endian "
+            "decoding of the address view. Derived from C02.accept_iff. Correspondence on view fields of generated accepted headers, all valid "
+            "control pairs x payload sizes incl. 65535, borrowed and owned.",
+    "note": BASE_NOTE, "ref": "DESIGN.md 7 (C14)",
+}
+CLAIMS["C17"] = {
+    "text": "Theorems C17.incomplete_exact, partial_exact, partial_completion, partial_progress (+ surplus): exact counts in Incomplete/Partial, "
+            "completion with any bytes of the missing length succeeds, fewer bytes update the counts. Correspondence on every cut of generated "
+            "headers, all valid control pairs x declared lengths, completions with random bytes.",
+    "note": BASE_NOTE, "ref": "DESIGN.md 7 (C17)",
+}
+
 NOT_YET = {}
